@@ -8,9 +8,10 @@
    Match forests and the NonMatch strings - concatenate, in order, to the input; this needs of the
    matcher good_step and that the groups it records end inside the reported match (both are
    interface facts of ReMatcher::matches, proved on the engine fragment only).
-   Partial: the '$0' identity (which goes through the expansion loop) is not yet proved, and the
-   two interface facts are hypotheses. *)
-From RX Require Import Base.Prelude Model.Engine Model.Matcher Model.Api Model.Run Proofs.ScanFacts Proofs.AnalyzeFacts Proofs.AnalyzeIterFacts.
+   replace_all with '$0' returns the input unchanged (through the expansion loop and the
+   simple-replacement latch), given that group 0 of a reported match is the reported span.
+   Partial: the interface facts of the matcher are hypotheses outside the engine fragment. *)
+From RX Require Import Base.Prelude Model.Engine Model.Matcher Model.Api Model.Run Proofs.ScanFacts Proofs.AnalyzeFacts Proofs.AnalyzeIterFacts Spec.Repl Proofs.ReplaceFacts.
 
 Theorem C04_tokenize_pieces_partial :
   forall matchf input, good_step matchf input ->
@@ -45,7 +46,18 @@ Theorem C04_analyze_iterator_partial :
       flat_map atext l = input.
 Proof. intros matchf proc input P G GP Hp fuel s l H. exact (proj1 (analyze_partition matchf proc input G P GP Hp fuel s l H)). Qed.
 
+Theorem C04_replace_dollar0_identity_partial :
+  forall matchf maxc input repl s0,
+    good_step matchf input ->
+    (forall pos s s', pos <= length input -> matchf pos s = MTrue s' -> forall g, exists o, get_paren input s' g = Ok o) ->
+    (forall pos s s' a b, pos <= length input -> matchf pos s = MTrue s' ->
+       get_pstart s' 0 = Some a -> get_pend s' 0 = Some b -> get_paren input s' 0 = Ok (Some (slice input a b))) ->
+    repl = [36; 48]%N ->
+    replace_loop matchf false (S maxc) input repl (length input + 2) 0 s0 [] true false = Ok input.
+Proof. intros matchf maxc input repl s0 G Hc H0 E. exact (replace_dollar0_identity matchf maxc input repl G Hc H0 s0 E). Qed.
+
 Print Assumptions C04_tokenize_pieces_partial.
 Print Assumptions C04_replace_joins_pieces_partial.
 Print Assumptions C04_analyze_texts_partial.
 Print Assumptions C04_analyze_iterator_partial.
+Print Assumptions C04_replace_dollar0_identity_partial.
